@@ -232,8 +232,16 @@ def _run_base(ctx):
         ctx.inst('R17.3', cfid, repo.norm(c), bool(ok and recv_ok and other_ok),
                  'base side diffed against remote side with the path filter forwarded' if ok and recv_ok and other_ok else
                  ('path filter not forwarded to git' if not ok else 'diff is not base-vs-remote'), c)
+    # the local that receives the second component of get_repo(...): the sub-directory components split off while walking up
+    popped_names = set()
+    for a in walk_no_nested(cn):
+        if isinstance(a, ast.Assign) and isinstance(a.targets[0], ast.Tuple) and len(a.targets[0].elts) == 2 and isinstance(a.value, ast.Call) and \
+                (dotted(a.value.func) or '').split('.')[-1] == 'get_repo' and isinstance(a.targets[0].elts[1], ast.Name):
+            popped_names.add(a.targets[0].elts[1].id)
+    if not popped_names:
+        raise AnalysisError('changed_notebooks: `repo, popped = get_repo(...)` not found')
     pref = [a for a in walk_no_nested(cn) if isinstance(a, ast.Assign) and
-            any(isinstance(t, ast.Name) and t.id == p_paths for t in a.targets) and 'popped' in names_in(a.value)]
+            any(isinstance(t, ast.Name) and t.id == p_paths for t in a.targets) and (popped_names & names_in(a.value))]
     ok = len(pref) == 1
     why = 'sub-directory prefix applied exactly once'
     if ok:
@@ -242,7 +250,7 @@ def _run_base(ctx):
         for t, pol in guards:
             if pol:
                 gn |= names_in(t)
-        ok = 'popped' in gn and p_paths in gn
+        ok = bool(popped_names & gn) and p_paths in gn
         if not ok:
             why = 'prefixing is not guarded by `paths and popped`'
     else:
